@@ -17,6 +17,7 @@ type ProgCase struct {
 	Regs0   map[string]int32 `json:"regs0"`
 	Img     string           `json:"img"`
 	MemSize int              `json:"memSize"`
+	Mem0    sparseMem        `json:"mem0"`
 	Exp     struct {
 		Status string           `json:"status"`
 		Regs   map[string]int32 `json:"regs"`
@@ -65,13 +66,20 @@ func (m *sparseMem) UnmarshalJSON(b []byte) error {
 }
 
 func (c *ProgCase) Init() InitState {
-	return InitState{Img: c.Img, MemSize: c.MemSize, Regs: c.Regs0}
+	in := InitState{Img: c.Img, MemSize: c.MemSize, Regs: c.Regs0}
+	if len(c.Mem0) > 0 {
+		in.MemInit = map[int]byte{}
+		for a, b := range c.Mem0 {
+			in.MemInit[a] = b
+		}
+	}
+	return in
 }
 
 func (c *ProgCase) Text() string { return Render(c.Prog) }
 
 func (c *ProgCase) Key() string {
-	return hashKey(c.Fam, oneLine(c.Prog), fmtRegs(c.Regs0), c.Img, strconv.Itoa(c.MemSize))
+	return hashKey(c.Fam, oneLine(c.Prog), fmtRegs(c.Regs0), c.Img, strconv.Itoa(c.MemSize), fmt.Sprint(len(c.Mem0)), string(c.Extra))
 }
 
 func (c *ProgCase) HasTag(t string) bool {
